@@ -46,6 +46,8 @@ Base == {
   Mapc("map:cs:a=1,zz=2", "string", << <<SB("a"), IntV(1)>>, <<SB("zz"), IntV(2)>> >>),
   (* a map that contains itself (under a key no lookup uses): a missing key is an error like on any other map *)
   Mapc("map:self", "string", <<>>),
+  (* unsigned keys: a negative number is no key of such a map (it must not wrap around to 2^64 - 1) *)
+  Mapc("map:us:max=x", "int", << <<IntV(3), SB("three")>>, <<[t |-> "num", f |-> "1.8446744073709552e+19"], SB("x")>> >>),
   (* keys of different types whose string forms coincide: the int 1 and the string "1" are two entries *)
   Mapc("map:mixed", "any", << <<IntV(1), SB("int")>>, <<SB("1"), SB("str")>>, <<SB("true"), SB("strtrue")>>, <<Bool(TRUE), SB("bool")>> >>),
   (* named container types that also have a String method (type tagList []string, type strMap map[string]string): containers still *)
@@ -64,7 +66,7 @@ HostKey(id) == [t |-> "go", id |-> id]
 Keys == << SB("a"), SB("zz"), SB("1"), SB(""), IntV(0), IntV(1), IntV(2), IntV(3), IntV(8), IntV(0 - 1), Num(96), Bool(TRUE), Bool(FALSE), Null,
            SB("Name"), SB("Age"), SB("Tags"), SB("Inner"), SB("secret"), SB("Greet"), SB("Nothing"), SB("Two"), SB("Sum"), SB("Rename"),
            SB("Self"), SB("Hello"), SB("Own"), SB("hidden"), SB("Nope"), SB("k"), IntV(1000000), SB("Wait"), SB("Level"), IntV(300), SB("Own"), SB("ID"), SB("Title"), SB("Code"), SB("Base"), SB("hiddenBase"), SB("F"), SB("N"), SB("G"),
-           HostKey("slice:int:4,5,6"), HostKey("map:ss:k=v"), HostKey("func"), HostKey("unhash"),
+           HostKey("slice:int:4,5,6"), HostKey("map:ss:k=v"), HostKey("func"), HostKey("unhash"), HostKey("num:int:-64"), HostKey("num:int64:-64"), HostKey("num:int8:-64"),
            (* host numbers far outside the window: no container has them as a key or index; the lookup is an error, never a panic *)
            HostKey("huge:1e19"), HostKey("huge:-1e19"), HostKey("huge:1e300"), HostKey("huge:inf"), HostKey("huge:-inf"), HostKey("huge:nan"),
            HostKey("big:uint64:max"), HostKey("big:int64:min"), HostKey("big:int64:max"), SB("1e30"), SB("Inf"), SB("-1e30"), SB("NaN") >>
@@ -99,7 +101,8 @@ GetAttrRef(d, key, args) ==
                     ELSE 0 - 1 IN
          IF idx >= 0 /\ idx < Len(d.els) THEN Elem(d.els[idx + 1]) ELSE ErrR
     [] d.kind = "map" ->
-         IF d.keyt = "string"
+         IF d.id = "map:us:max=x" /\ key = HostKey("big:uint64:max") THEN Elem(SB("x"))        \* the one host number that IS a key of that map
+         ELSE IF d.keyt = "string"
          THEN (IF key.t = "str"
                THEN (IF \E q \in 1..Len(d.ents) : d.ents[q][1] = key
                      THEN Elem(d.ents[CHOOSE q \in 1..Len(d.ents) : d.ents[q][1] = key][2]) ELSE ErrR)
